@@ -243,6 +243,27 @@ def container_documents(ctx):
         yield f"{kind}:trailing-garbage", data + b"trailing"
 
 
+def duplicate_key_documents():
+    """JSON TEXT with a key repeated inside one object - something no json.dumps of a Python dict produces, but a hand
+    edit or a merge does - at every level: node ids, node fields, child ids, child fields, value types."""
+    node = '{"node_id": 1, "node_type": 17, "protocol_version": "2.0", "children": {"0": {"child_id": 0, "child_type": 6, ' \
+           '"description": "d", "values": {"0": "20.5"}}}, "sketch_name": "s", "sketch_version": "1", "battery_level": 5, ' \
+           '"heartbeat": 0, "sleeping": false}'
+    yield "dup:top-level-id", ('{"1": %s, "1": %s}' % (node, node)).encode()
+    yield "dup:top-level-id-different", ('{"1": %s, "1": %s}' % (node, node.replace('"s"', '"other"'))).encode()
+    for field in ('"node_id": 1', '"node_type": 17', '"protocol_version": "2.0"', '"sketch_name": "s"', '"battery_level": 5',
+                  '"sleeping": false', '"child_id": 0', '"child_type": 6', '"description": "d"', '"0": "20.5"'):
+        yield f"dup:{field}", ('{"1": %s}' % node.replace(field, field + ", " + field, 1)).encode()
+        key = field.split(":")[0]
+        yield f"dup-null:{field}", ('{"1": %s}' % node.replace(field, field + ", " + key + ": null", 1)).encode()
+    yield "dup:children-object", ('{"1": %s}' % node.replace('"children": {', '"children": {}, "children": {', 1)).encode()
+    yield "dup:child-id", ('{"1": %s}' % node.replace('"0": {"child_id"', '"0": {}, "0": {"child_id"', 1)).encode()
+    yield "dup:values-object", ('{"1": %s}' % node.replace('"values": {', '"values": {}, "values": {', 1)).encode()
+    yield "dup:legacy", b'{"1": {"sensor_id": 1, "sensor_id": 1, "type": 17, "type": 18, "protocol_version": "2.0", "children": {}}}'
+    yield "dup:empty-key", b'{"": {}, "": {}}'
+    yield "dup:many", ("{" + ", ".join('"1": ' + node for _ in range(50)) + "}").encode()
+
+
 async def load_file(ctx, workdir: str, name: str, content: bytes, via_gateway: bool, file_name: str = "p.json",
                     explicit_path: bool = False) -> None:
     from aiomysensors.exceptions import PersistenceReadError
@@ -359,6 +380,10 @@ def run(ctx) -> None:
                     file_name = FILE_NAMES[index // 3 % len(FILE_NAMES)] if index % 3 == 0 else "p.json"
                     arun(load_file(ctx, workdir, name, content, via_gateway=(index % 25 == 0), file_name=file_name,
                                    explicit_path=(index % 25 == 1)))
+            for index, (name, content) in enumerate(duplicate_key_documents()):
+                if ctx.mine(index):
+                    arun(load_file(ctx, workdir, name, content, via_gateway=(index % 5 == 0)))
+                    ctx.clause("duplicate-key-text")
             for index, (name, content) in enumerate(container_documents(ctx)):
                 if ctx.mine(index):
                     suffix = {"gzip": ".gz", "bz2": ".bz2", "xz": ".xz", "zlib": ".z", "zip": ".zip", "pickle": ".pickle"}[
